@@ -227,6 +227,17 @@ impl<'a> ScopeGen<'a> {
             "set_reg" => {
                 let kind = self.kind();
                 let idx = self.reg_idx(kind);
+                if self.rng.chance(1, 7) {
+                    // from another register of the same kind (by value: a later change of the
+                    // source must not show in the copy)
+                    let from = self.reg_idx(kind);
+                    return vec![Op::CopyReg {
+                        g: self.g(),
+                        kind,
+                        from,
+                        to: idx,
+                    }];
+                }
                 let (v, w) = if self.rng.chance(1, 8) {
                     // re-assign the value the register holds right now (a write that changes
                     // nothing visible must still have its scoping effect)
